@@ -241,13 +241,17 @@ def per_program(p):
 def plan(tier, seed):
     n = 120 if tier == "quick" else 2500
     depth = 4 if tier == "quick" else 6
-    return [{"seed": seed * 1000 + k, "n": n, "depth": depth, "adversarial": k % 4 == 3} for k in range(16)]
+    shards = [{"seed": seed * 1000 + k, "n": n, "depth": depth, "adversarial": k % 4 == 3} for k in range(16)]
+    # one parameterised generic met twice in one annotation (nested first / bare first)
+    shards += [{"seed": seed * 1000 + 70 + k, "n": n, "depth": 3, "repeated": True} for k in range(2)]
+    return shards
 
 
 def run_shard(shard, col):
     adv = shard.get("adversarial", False)
     progs.drive_programs(col, seed=shard["seed"], n=shard["n"],
-                         spec_strategy=U.root_specs(max_depth=shard["depth"], mods=3 if adv else 2, adversarial=adv),
+                         spec_strategy=(U.repeated_generic_specs() if shard.get("repeated") else
+                                        U.root_specs(max_depth=shard["depth"], mods=3 if adv else 2, adversarial=adv)),
                          per_program=per_program)
 
 
